@@ -1,6 +1,9 @@
 import EdpVerif.Generated.Control
 import EdpVerif.Spec.Control
 import EdpVerif.Lemmas.Control
+import EdpVerif.Lemmas.ControlReject
+import EdpVerif.Impl.ControlCtor
+import EdpVerif.Spec.ControlCtor
 import EdpVerif.Impl.Encode
 import EdpVerif.Impl.Decode
 /-
@@ -84,6 +87,41 @@ example : tagged (.tuple [.int 35, .int (-1), .nil, .nil]) = true ∧
     parse Gen.controlTable (.tuple [.int 36, .big false [0, 0, 0, 0, 0, 0, 0, 0, 1], .nil, .nil]) = .error .err :=
   ⟨by decide, rfl, rfl⟩
 
+/-- **The exception is an exception in both directions**: a tuple headed by `Integer 0..255` whose id element (where
+the operation selected by tag and arity has one) does NOT stand for an integer `0 ≤ id < 2^64` — negative, 65 bits
+or more, or not an integer at all — is rejected with an error: never accepted with an altered id, never a panic.
+(`IntsAreI64`: the elements are Rust values, `OwnedTerm::Integer` carries an `i64`.) Together with `C08_roundtrip`:
+for every consistent table a tagged tuple parses IF AND ONLY IF the guard holds. -/
+theorem C08_bad_id_rejected (tbl : Table) (h : TableOK tbl) (raw : Int) (rest : List Term) (h0 : 0 ≤ raw)
+    (h255 : raw ≤ 255) (hw : IntsAreI64 rest) (hg : idGuard tbl (.tuple (.int raw :: rest)) = false) :
+    parse tbl (.tuple (.int raw :: rest)) = .error .err :=
+  bad_id_rejected h raw rest h0 h255 hw hg
+
+example : idGuard Gen.controlTable (.tuple [.int 35, .int (-1), .nil, .nil]) = false ∧
+    idGuard Gen.controlTable (.tuple [.int 36, .big false [0, 0, 0, 0, 0, 0, 0, 0, 1], .nil, .nil]) = false ∧
+    idGuard Gen.controlTable (.tuple [.int 35, .atom [97], .nil, .nil]) = false ∧
+    IntsAreI64 [.int (-1), .nil, .nil] := by
+  refine ⟨by decide, by decide, by decide, ?_⟩
+  intro e he i hi
+  simp at he
+  rcases he with rfl | rfl | rfl <;> cases hi <;> decide
+
+/-- for the library's table, in the protocol's terms: a tuple of shape `badId` is rejected -/
+theorem C08_parses_iff_allowed (raw : Int) (rest : List Term) (h0 : 0 ≤ raw) (h255 : raw ≤ 255)
+    (hw : IntsAreI64 rest) :
+    (∃ m, parse Gen.controlTable (.tuple (.int raw :: rest)) = .ok m) ↔
+      idGuard Gen.controlTable (.tuple (.int raw :: rest)) = true := by
+  constructor
+  · intro ⟨m, hm⟩
+    cases hg : idGuard Gen.controlTable (.tuple (.int raw :: rest)) with
+    | true => rfl
+    | false =>
+      rw [C08_bad_id_rejected _ C08_table_ok raw rest h0 h255 hw hg] at hm
+      cases hm
+  · intro hg
+    obtain ⟨m, _, hm, _⟩ := C08_roundtrip _ C08_table_ok (.tuple (.int raw :: rest)) (by simp [tagged, h0, h255]) hg
+    exact ⟨m, hm⟩
+
 /-- FULL statement for the library's table: every control tuple the protocol allows parses and re-serialises (both
 serialisers) to a tuple of the same value -/
 theorem C08_lossless : Lossless Gen.controlTable := by
@@ -155,5 +193,41 @@ theorem C08_covers_protocol :
 /-- tag numbers are pairwise distinct, in the library and in the protocol table -/
 theorem C08_tags_distinct :
     (Gen.controlTable.enumTags.map (·.2)).Nodup ∧ (Spec.controlTable.map (·.tag)).Nodup := by decide
+
+/-! ## field kinds and constructors -/
+
+/-- the kinds of the declared fields follow the protocol: a field is a `u64` exactly when it plays the protocol's `Id`
+role; every other field (pids, atoms, references, reasons, flags, trace tokens, cookies) is an `OwnedTerm` that the
+parser takes as it comes — which is what "every tuple headed by a tag parses" demands: the parser may not refuse a
+tuple because an element is not of the Erlang type the operation usually carries there. -/
+theorem C08_field_kinds_follow_protocol :
+    ∀ v ∈ Gen.controlTable.variants, ∀ p ∈ v.2,
+      (p.2 = true ↔ lookup Spec.roleOfField p.1 = some Spec.idRole) ∧ (lookup Spec.roleOfField p.1).isSome := by
+  decide
+
+/-- **The constructor functions build the protocol's tuples.** For every `pub fn .. -> Self` of `impl ControlMessage`
+(the list is regenerated from control.rs on every run) and ALL argument terms: the call yields a well-typed message
+of the variant, both serialisers turn it into the same tuple, and that tuple is what the protocol prescribes for the
+operation — its tag, and at position k the argument passed for the parameter that plays the operation's k-th role. -/
+theorem C08_constructors_build_protocol_tuples :
+    ∀ c ∈ ctors, ∀ args : List Term, args.length = c.params.length →
+      ∃ m t, construct c args = some m ∧ wellTyped Gen.controlTable m = true ∧
+        toTerm Gen.controlTable m = some t ∧ intoTerm Gen.controlTable m = some t ∧
+        Spec.ctorTuple c.variant c.params args = some t := by
+  intro c hc
+  simp only [ctors, Gen.CONTROL_CONSTRUCTORS, List.map_cons, List.map_nil, List.mem_cons, List.not_mem_nil,
+    or_false] at hc
+  repeat' (rcases hc with rfl | hc)
+  all_goals subst_vars
+  all_goals
+    intro args hl
+    rcases args with _ | ⟨a, _ | ⟨b, _ | ⟨c, _ | ⟨d, _ | ⟨e, r⟩⟩⟩⟩⟩ <;> simp at hl
+    exact ⟨_, _, rfl, rfl, rfl, rfl, rfl⟩
+
+example : ctors.length = 14 ∧ (ctors.map (·.name)).Nodup := by decide
+example (a b c : Term) : ∃ c₀ ∈ ctors, c₀.name = "reg_send" ∧
+    (construct c₀ [a, b, c]).bind (toTerm Gen.controlTable) = some (.tuple [.int 6, a, b, c]) :=
+  ⟨⟨"reg_send", ["from_pid", "cookie", "to_name"], "RegSend",
+    [("from_pid", "from_pid"), ("cookie", "cookie"), ("to_name", "to_name")]⟩, by decide, rfl, rfl⟩
 
 end Edp.Props.C08
